@@ -618,10 +618,12 @@ func checkC03(c *Ctx, r *Report) {
 	r.rule("C03.R4", "payload and record length come from the same marshal result", 1)
 	r.rule("C03.R6", "every BER header inside a payload announces its contents with enough (and no more than needed) length / tag / INTEGER octets (shared with C04.R9)", 6)
 	r.rule("C03.R7", "the buffers the octets are assembled in are empty at the first write, so the length members count exactly the octets of this file (shared with C15.R6)", 3)
+	r.rule("C03.R8", "the file is the header followed by exactly the records the count announces (shape of CDRFile.Encoding, shared with C15.R4): a writer that drops or reorders records has to write the count of what it writes", 1)
 	r.rule("C03.R5", "the file on disk is replaced by exactly the encoded octets, so the file length member equals the file size (shared with C15.R5)", 1)
 
 	f := c.fn("internal/sbi/processor", "dumpCdrFile")
 	key := fnKey(f)
+	r.shareFrom(c, checkC15, map[string]string{"C15.R4": "C03.R8"})
 
 	// ---- R1
 	re := newRangeEval(f)
@@ -646,6 +648,30 @@ func checkC03(c *Ctx, r *Report) {
 			r.check(src.hi >= tr.hi, "C03.R1", fmt.Sprintf("%s|bound of %s #%d is the range of the field", key, cv.Type().String(), nconv), posOf(c, cv), "every length the field can hold passes the guard",
 				fmt.Sprintf("the guard in front of the conversion lets only lengths up to %d through although the %s field holds up to %d: a record between these sizes - which the session reaches long before a new record is started - is refused, so every further update and the release of a long session fail after their credit control has run", src.hi, cv.Type().String(), tr.hi))
 		}
+	})
+	// arithmetic carried out in a 16-bit (or narrower) type: the sum of a length and a header size wraps
+	nar := 0
+	eachInstr(f, func(_ *ssa.BasicBlock, _ int, ins ssa.Instruction) {
+		bo, ok := ins.(*ssa.BinOp)
+		if !ok || (bo.Op != token.ADD && bo.Op != token.MUL && bo.Op != token.SHL) || !isIntegerType(bo.Type()) || sizeOfBasic(bo.Type()) > 2 {
+			return
+		}
+		nar++
+		tr := typeRange(bo.Type())
+		// (a member read back right after it was assigned is the value assigned)
+		x, y := rangeWithLenGuards(re, resolveMem(stripConvSameSize(bo.X)), bo), rangeWithLenGuards(re, resolveMem(stripConvSameSize(bo.Y)), bo)
+		fits := x.ok && y.ok
+		if fits {
+			switch bo.Op {
+			case token.ADD:
+				fits = x.hi+y.hi <= tr.hi
+			case token.MUL:
+				fits = x.hi*y.hi <= tr.hi
+			default:
+				fits = false
+			}
+		}
+		r.check(fits, "C03.R1", fmt.Sprintf("%s|%s arithmetic #%d", key, bo.Type().String(), nar), posOf(c, bo), "cannot exceed the range of its type", fmt.Sprintf("the expression at %s is computed in %s and can exceed %d: for a record near the 65535-octet limit the sum wraps, and the length it is added to (the file length) is 65536 too small", c.rel(bo.Pos()), bo.Type().String(), tr.hi))
 	})
 	if nconv == 0 {
 		r.proven("C03.R1", key+"|no narrowing", c.rel(f.Pos()), "no narrowing conversion into a length field")
